@@ -1237,7 +1237,12 @@ def params_from_backend(obs_length=300,
     df = chan_bw / fftlength
 
     dt = int_factor / df
-    tchans = int(obs_length / dt)
+    # A length that is a whole number of integration steps (as every recorded
+    # length is) can come out of the float division just below that integer
+    steps = obs_length / dt
+    tchans = int(steps)
+    if np.isclose(steps, tchans + 1, rtol=1e-12, atol=0):
+        tchans += 1
 
     param_dict = {
         'tchans': tchans,
